@@ -1,6 +1,6 @@
 (** C15 — Balanced trees stay logarithmic and report their true height.
     Statements only; proofs live in C15/Proofs*.v (on the models of C01/Model.v). *)
-From Algo.C01 Require Import Model Spec.
+From Algo.C01 Require Import Model Spec ProofsRB.
 From Algo.C15 Require Import Spec Proofs.
 Open Scope Z_scope.
 
@@ -20,6 +20,25 @@ Theorem C15_avl_check_sound :
   forall (K V : Type) (t : tree K V), avl_check t = true -> balanced t /\ cached_heights_ok t.
 Proof. intros K V t. exact (avl_check_sound t). Qed.
 
+(** Red-black: the statement at full strength. *)
+Definition C15_rb_full : Prop :=
+  forall (K V : Type) (cmp : K -> K -> Z), TotalOrder cmp ->
+  forall h : list (mut K V),
+  exists t, build cmp RB h = Ok t /\
+    black_balanced t /\ no_right_red t /\ no_red_red t /\ root_black t /\
+    height t <= 2 * Z.log2 (size t + 1) /\ Height RB t = height t /\ rb_check t = true.
+
+(** PARTIAL: proved for histories of Put and DeleteAll.  Missing: Delete / DeleteMin / DeleteMax
+    histories, which rest on the correspondence ([rb_check] and the height bound are evaluated on
+    the implementation's node dump after every step of the delete histories). *)
+Theorem C15_rb_partial :
+  forall (K V : Type) (cmp : K -> K -> Z), TotalOrder cmp ->
+  forall h : list (mut K V), forallb put_only h = true ->
+  exists t, build cmp RB h = Ok t /\
+    black_balanced t /\ no_right_red t /\ no_red_red t /\ root_black t /\
+    height t <= 2 * Z.log2 (size t + 1) /\ Height RB t = height t /\ rb_check t = true.
+Proof. intros K V cmp TO h. exact (rb_after_put_history cmp TO h). Qed.
+
 (** Non-vacuity and the witnesses of defect D15 on the model of the repaired code
     ([_deleteMax] refreshes the cached height): Put 1; Put 2; DeleteMax leaves a one-node tree of
     height 1, and Put 6,10,0,11,4,2,1; DeleteMax leaves a balanced tree with exact cached heights. *)
@@ -38,3 +57,4 @@ Proof. vm_compute. repeat split; reflexivity || discriminate. Qed.
 
 Print Assumptions C15_avl.
 Print Assumptions C15_avl_check_sound.
+Print Assumptions C15_rb_partial.
